@@ -304,6 +304,12 @@ func tableConverge(tr *tracer.T, rng *rand.Rand, log []logEntry, p *gen.Pool) {
 			pinnedPos := pos[i]
 			if rng.Intn(2) == 0 {
 				applyBatch(i, 1+rng.Intn(3))
+				if rng.Intn(2) == 0 {
+					// dragonboat calls Sync between apply batches: the memtable is flushed while the snapshot is pending
+					if err := reps[i].f.Sync(); err != nil {
+						die("sync: %v", err)
+					}
+				}
 			}
 			data := save()
 			if err := reps[j].f.RecoverFromSnapshot(bytes.NewReader(data), make(chan struct{})); err != nil {
